@@ -239,7 +239,9 @@ def _classes(case):
 
 def buckets(tier):
     bl = []
-    for fam in SINGLE:
+    # dot with operands of rank > 2 in reverse mode is an open known finding: generated only once it is fixed
+    single = SINGLE + ([] if KF.is_open(OPEN_DOT_ND) else ['dotnd'])
+    for fam in single:
         bl.append(Bucket('op:' + fam,
                          (lambda fam=fam: pairing_cases(tier, first=fam, families=CHEAP_TAIL, max_len=3, min_len=1)),
                          prop_pairing, {'quick': 40, 'thorough': 400}, nontrivial=_nontrivial, classes=_classes,
